@@ -13,6 +13,7 @@
      bool   And/Or/JustOne/AtMostOne/KeyedAnd  a: child order, n: negate, m: how node_type is given
      depset REQUIRED_USE DepSets               a: text (members permuted / duplicated)
      func   FunctionRestriction / FlatteningRestriction  a: function, n: negate, st: argument style
+     atomver / multi / prattr / cond / misc: see the definitions below
    Full = FALSE keeps a reduced value set per field (quick tier).                                   *)
 EXTENDS TLC, Json, IOUtils, SequencesExt, Naturals
 CONSTANT Full
@@ -20,7 +21,8 @@ D(fam, k, a, b, n, m, st) == [fam |-> fam, k |-> k, a |-> a, b |-> b, n |-> n, m
 B == BOOLEAN
 Vm == {D("vm", k, a, b, n, FALSE, "") : k \in {"vm", "pvm"}, a \in {"<", "<=", "=", ">=", ">", "~"},
                                          b \in (IF Full THEN {"1.0", "1.0-r1", "2"} ELSE {"1.0", "1.0-r1"}), n \in B}
-Str == {D("str", k, a, "", n, m, "") : k \in {"exact", "glob", "regex"}, a \in (IF Full THEN {"a", "A", "ab"} ELSE {"a", "A"}), n \in B, m \in B}
+\* b = "alt": glob matches a suffix instead of a prefix, regex uses re.match instead of re.search
+Str == {D("str", k, a, b, n, m, "") : k \in {"exact", "glob", "regex"}, a \in (IF Full THEN {"a", "A", "ab"} ELSE {"a", "A"}), b \in {"", "alt"}, n \in B, m \in B}
 Cont == {D("cont", k, a, "", n, m, "") : k \in {"cm"}, a \in {"a", "a,b", "b,a"}, n \in B, m \in B}
         \cup {D("cont", k, a, "", n, TRUE, "") : k \in {"udc+", "udc-"}, a \in {"a", "a,b", "b,a"}, n \in B}
 Pkgr == {D("pkgr", k, a, "", n, m, "") : k \in {"catdep", "pkgr"}, a \in {"dev-util", "dev-lib"}, n \in B, m \in B}
@@ -35,11 +37,27 @@ Depset == {D("depset", "ru", a, "", FALSE, FALSE, "") : a \in {"a b", "b a", "a 
                                                                 "|| ( b a )", "a? ( b )", "a? ( b ) c", "c a? ( b )", "?? ( a b )", "?? ( b a )"}}
 Func == {D("func", k, a, "", n, FALSE, st) : k \in {"func", "flat"}, a \in {"f", "g"}, n \in B, st \in {"pos", "kw"}}
 
-Fams == <<Vm, Str, Cont, Pkgr, Use, Atom, Bool, Depset, Func>>
+\* atoms that differ only in the SPELLING of one version, under every operator (a: operator, b: spelling)
+AtomVer == {D("atomver", "atom", a, b, n, FALSE, "") : a \in {"=", "~", ">=", ">", "<=", "<", "=*"}, b \in {"1.0", "1.00", "1.0-r0", "1", "1-r0"},
+                                                      n \in (IF Full THEN B ELSE {FALSE})}
+\* PackageRestrictionMulti: a: attribute tuple (permuted / differing), b: child restriction, n: negate
+Multi == {D("multi", "multi", a, b, n, FALSE, "") : a \in {"category,package", "package,category", "slot,subslot", "subslot,slot", "category,slot", "category"},
+                                                     b \in {"first", "any"}, n \in B}
+\* PackageRestriction / GetAttrRestriction: a: attribute, b: value, n: negate, m: ignore_missing
+PrAttr == {D("prattr", k, a, b, n, m, "") : k \in {"pr", "getattr"}, a \in {"category", "package", "slot"}, b \in {"dev-util", "0"}, n \in B,
+                                             m \in (IF Full THEN B ELSE {FALSE})}
+\* Conditional: a: flag of the condition, b: payload members (order varied), n: negate
+Cond == {D("cond", "cond", a, b, n, FALSE, "") : a \in {"a", "b"}, b \in {"1", "2", "12", "21"}, n \in B}
+\* the remaining classes: EqualityMatch, AnyMatch, AlwaysBool, ContainmentMatch2, SubSlotDep, PackageDep, Negate, FakeType
+Misc == {D("misc", k, a, "", n, FALSE, "") : k \in {"eqm", "anym", "always", "cm2", "subslot", "pkgdep", "negate", "faketype"}, a \in {"0", "1"}, n \in B}
+
+Fams == <<Vm, Str, Cont, Pkgr, Use, Atom, Bool, Depset, Func, AtomVer, Multi, PrAttr, Cond, Misc>>
 \* pairs inside a family; version-match and atom pairs only inside the same class / base atom
 Related(x, y) == CASE x.fam = "vm" -> x.k = y.k /\ x.b = y.b
                    [] x.fam = "atom" -> x.a = y.a
                    [] x.fam = "func" -> x.k = y.k
+                   [] x.fam = "atomver" -> x.a = y.a
+                   [] x.fam = "misc" -> x.k = y.k
                    [] OTHER -> TRUE
 Cases == UNION {{[x |-> x, y |-> y] : <<x, y>> \in {p \in Fams[i] \X Fams[i] : Related(p[1], p[2])}} : i \in DOMAIN Fams}
 ASSUME ndJsonSerialize(IOEnv.OUT, SetToSeq(Cases))
